@@ -106,7 +106,7 @@ class TFn:
 
 def gen_functions(rnd: random.Random, n: int) -> list[TFn]:
     out = []
-    kinds = ["inc", "setx", "gate", "owner", "pay", "assertive", "swap", "reset", "addy", "incy", "sameblock", "later", "sameblock"]
+    kinds = ["inc", "setx", "gate", "owner", "pay", "assertive", "swap", "reset", "addy", "incy", "sameblock", "later", "sameblock", "pairset", "pairset"]
     rnd.shuffle(kinds)
     for i, k in enumerate(kinds[:n]):
         lab = f"r{i}"
@@ -143,6 +143,17 @@ def gen_functions(rnd: random.Random, n: int) -> list[TFn]:
             body = [("PUSH", 2), "SLOAD", "DUP1", "ISZERO", ("PUSHL", lab), "JUMPI", "DUP1", "TIMESTAMP", "GT", "ISZERO", ("PUSHL", lab), "JUMPI"] + _set(1, [("PUSH", K)]) + \
                    [("LABEL", lab), "POP", "TIMESTAMP", ("PUSH", 2), "SSTORE", "STOP"]
             out.append(TFn(f"later{i}()", body, 0, desc=f"if(last!=0 && block.timestamp>last) y={K}; last=block.timestamp"))
+        elif k == "pairset":
+            # two related arguments; the branch on b only matters through a <= b: the two arms reach states that
+            # differ only in a constraint that does not mention the stored value directly
+            a2 = arg(0) + [("PUSH", 3), "AND"]
+            b2 = arg(1) + [("PUSH", 3), "AND"]
+            neg = ["ISZERO"] if rnd.random() < 0.5 else []
+            lab2 = f"rr{i}"
+            body = a2 + b2 + ["LT", "ISZERO", ("PUSHL", lab), "JUMPI"] + revert_plain() + [("LABEL", lab)]  # require(a <= b)
+            body += [("PUSH", max(K, 1))] + b2 + ["LT"] + neg + [("PUSHL", lab2), "JUMPI", ("LABEL", lab2)]  # if (b < K) {} - both arms continue here
+            body += _set(0, a2) + ["STOP"]
+            out.append(TFn(f"pairset{i}(uint256,uint256)", body, 2, desc=f"require(a&3<=b&3); if({'!' if neg else ''}(b&3<{max(K, 1)})){{}} x=a&3"))
         elif k == "addy":
             out.append(TFn(f"addy{i}()", _set(0, _x() + _y() + ["ADD"]) + ["STOP"], 0, desc="x+=y"))
     return out
@@ -258,4 +269,31 @@ def late_machine() -> Machine:
     """Probe: the only way to break `x != 3` is a first call at a timestamp later than setUp's."""
     body = ["TIMESTAMP", ("PUSH", 1), "LT", ("PUSHL", "r"), "JUMPI", "STOP", ("LABEL", "r")] + _set(0, [("PUSH", 3)]) + ["STOP"]
     f = TFn("late()", body, 0, desc="if(block.timestamp>1) x=3")
+    return gen_machine(random.Random(0), depth=1, fns=[f], inv=("x", 3, 0))
+
+
+def same_block_machine() -> Machine:
+    """Two calls in the same block: `x != 3` breaks only if the second call has the timestamp of the first."""
+    body = ["TIMESTAMP", ("PUSH", 2), "SLOAD", "EQ", ("PUSHL", "r"), "JUMPI", "TIMESTAMP", ("PUSH", 2), "SSTORE", "STOP", ("LABEL", "r")] + _set(0, [("PUSH", 3)]) + ["STOP"]
+    f = TFn("poke()", body, 0, desc="if(block.timestamp==last) x=3 else last=block.timestamp")
+    return gen_machine(random.Random(0), depth=2, fns=[f], inv=("x", 3, 0))
+
+
+def later_block_machine() -> Machine:
+    """... and `y != 2` breaks only if the second call comes strictly later than the first."""
+    body = [("PUSH", 2), "SLOAD", "DUP1", "ISZERO", ("PUSHL", "r"), "JUMPI", "DUP1", "TIMESTAMP", "GT", "ISZERO", ("PUSHL", "r"), "JUMPI"] + _set(0, [("PUSH", 3)]) + \
+           [("LABEL", "r"), "POP", "TIMESTAMP", ("PUSH", 2), "SSTORE", "STOP"]
+    f = TFn("tick()", body, 0, desc="if(last!=0 && block.timestamp>last) x=3; last=block.timestamp")
+    return gen_machine(random.Random(0), depth=2, fns=[f], inv=("x", 3, 0))
+
+
+def merge_machine() -> Machine:
+    """Two paths of one call end in states that differ only in a constraint on an argument the stored value is
+    merely related to (a <= b, then b < 2 / b >= 2): they are different states and must not be merged."""
+    a2 = arg(0) + [("PUSH", 3), "AND"]
+    b2 = arg(1) + [("PUSH", 3), "AND"]
+    body = a2 + b2 + ["LT", "ISZERO", ("PUSHL", "k1"), "JUMPI"] + revert_plain() + [("LABEL", "k1")]
+    body += [("PUSH", 2)] + b2 + ["LT", "ISZERO", ("PUSHL", "k2"), "JUMPI", ("LABEL", "k2")]
+    body += _set(0, a2) + ["STOP"]
+    f = TFn("pair(uint256,uint256)", body, 2, desc="require(a&3<=b&3); if(!(b&3<2)){} x=a&3")
     return gen_machine(random.Random(0), depth=1, fns=[f], inv=("x", 3, 0))
